@@ -3,6 +3,7 @@ package props
 import (
 	"errors"
 	"fmt"
+	"strings"
 
 	"github.com/semihalev/twig"
 
@@ -24,7 +25,7 @@ func init() {
 			"inside a macro the includer's variables are the macro's parameters",
 			"error texts are not compared, only error-vs-output",
 		},
-		quick: 1728 + 60 + 4000, thorough: 1728 + 60 + 60000, minQuick: 2500, minThorough: 15000,
+		quick: 1728 + 60 + 72 + 16000, thorough: 1728 + 60 + 72 + 60000, minQuick: 2500, minThorough: 15000,
 	}})
 }
 
@@ -213,6 +214,64 @@ func (p *c11) Run(rec *core.Recorder, seed uint64, idx int, tier string) {
 		return
 	}
 	idx -= 60
+	if idx < 4*3*2*3 {
+		// `only` hides everything the includer has: also the macros it defined or imported (names, not only variables)
+		origin, probe, form, place := idx%4, idx/4%3, idx/12%2, idx/24%3
+		name := "badge"
+		var head string
+		switch origin {
+		case 0:
+			head = "{% macro badge(x) %}<LEAK:{{ x }}>{% endmacro %}"
+		case 1:
+			head = "{% from 'mlib' import badge %}"
+		case 2:
+			head = "{% from 'mlib' import other as badge %}"
+		default:
+			head, name = "{% import 'mlib' as badge %}", "badge"
+		}
+		var probeSrc string
+		switch probe {
+		case 0:
+			probeSrc = "{% if " + name + " %}VISIBLE{% else %}hidden{% endif %}"
+		case 1:
+			probeSrc = "{% if " + name + " is defined %}VISIBLE{% else %}hidden{% endif %}"
+		default:
+			probeSrc = "{{ " + name + "('arg') }}"
+			if origin == 3 {
+				probeSrc = "{{ badge.badge('arg') }}"
+			}
+		}
+		inc := "{% include 'probe' only %}"
+		if form == 1 {
+			inc = "{% include 'probe' with {'z': 1} only %}"
+		}
+		body := "[" + inc + "]"
+		switch place {
+		case 1:
+			body = "{% for i in [1, 2] %}[" + inc + "]{% endfor %}"
+		case 2:
+			body = "{% if true %}[" + inc + "]{% endif %}{{ 1 }}"
+		}
+		srcs := map[string]string{
+			"mlib":  "{% macro badge(x) %}<LEAK:{{ x }}>{% endmacro %}{% macro other(x) %}<LEAK2:{{ x }}>{% endmacro %}",
+			"main":  head + body,
+			"probe": probeSrc,
+		}
+		canon := canonSrcs(srcs)
+		rec.Eval("only-hides-callables", canon, true)
+		res := renderFresh(srcs, "main", nil, nil)
+		if res.Panicked {
+			rec.Violate("panic", "panic@"+res.Site, "engine panicked: "+res.PanicVal, map[string]any{"templates": srcs}, res.Stack)
+			return
+		}
+		if strings.Contains(res.Out, "VISIBLE") || strings.Contains(res.Out, "LEAK") {
+			rec.Violate("only-scope", fmt.Sprintf("only-leaks-callable:origin%d:probe%d", origin, probe),
+				fmt.Sprintf("a template included with `only` sees the includer's macro %q: output %s (err=%v); includer %s, included %s", name, core.Q(core.Trunc(res.Out, 200)), res.Err, core.Q(srcs["main"]), core.Q(probeSrc)),
+				map[string]any{"templates": srcs}, "")
+		}
+		return
+	}
+	idx -= 4 * 3 * 2 * 3
 	// thorough: random compositions (two includes, deeper nesting)
 	r := core.NewRand("C11", seed, idx)
 	c := c11Case{with: r.Bool(), only: r.Bool(), ignore: r.Bool(), sandboxed: r.P(1, 4), nameForm: r.Intn(3), placement: r.Intn(4), target: r.Intn(3), overlap: r.Intn(3)}
